@@ -36,6 +36,10 @@
 (*         sealed by the README implementation at (N, last); opens = the       *)
 (*         positions (here: its own) at which the real decryptor opened it.    *)
 (*         (reset.producer = "segfn" for these runs)                           *)
+(*  keycheck intact, after in {"encrypt","decrypt"}: the key bytes that the    *)
+(*         caller's key provider retains (the slice its wrap callback was      *)
+(*         given / its unwrap callback returns on every call) are unchanged    *)
+(*         after the operation: a valid document decrypts any number of times  *)
 (*  end                                                                       *)
 EXTENDS Naturals, Sequences
 
@@ -155,6 +159,7 @@ CNext(c, e) ==
          [] e.ev = "doc"    -> CDoc(c, e)
          [] e.ev = "seg"    -> CSeg(c, e)
          [] e.ev = "segn"   -> CSegN(c, e)
+         [] e.ev = "keycheck" -> IF e.intact THEN c ELSE Bad("caller's retained key bytes were modified")
          [] e.ev = "unwrap" -> CUnwrap(c, e)
          [] e.ev = "dec"    -> CDec(c, e)
          [] e.ev = "end"    -> CEnd(c)
